@@ -267,7 +267,7 @@ func init() {
 	}
 }
 
-const c14Helper = "func Twice(a int) int {\n\treturn helper(a) * 2\n}\nfunc helper(a int) int {\n\treturn a\n}\nfunc Name() string {\n\treturn \"h\"\n}\nfunc Unused() int {\n\treturn 1\n}\nCounter := 3\n"
+const c14Helper = "func helper(a int) int {\n\treturn a\n}\nfunc Twice(a int) int {\n\treturn helper(a) * 2\n}\nfunc Name() string {\n\treturn \"h\"\n}\nfunc Unused() int {\n\treturn 1\n}\nCounter := 3\n"
 const c14Other = "func Name() string {\n\treturn \"o\"\n}\nfunc Twice(a int) int {\n\treturn a + a\n}\n"
 
 func TestC14(t *testing.T) {
@@ -367,6 +367,17 @@ func TestC14(t *testing.T) {
 			}
 			r.NonTrivial(string(key), map[string]any{"programs": kinds, "steps": c.Steps, "first_program": c.Progs[0].Files})
 			r.Class("history:nontrivial")
+		}
+		// self-check of the harness: every program that is not meant to be rejected is accepted (a pool of rejected programs would
+		// compare error texts only)
+		for i, p := range c.Progs {
+			if p.Kind == "rejected" || p.Kind == "generated" {
+				continue
+			}
+			if tr := run.TranspileSrc(p.Files, p.Main, run.Bash); !tr.Accepted() {
+				r.HarnessError("C14 pool program %d (%s) is not accepted: %s", i, p.Kind, tr.ErrText())
+				t.Skip("harness")
+			}
 		}
 		kind, msg := checkPurity(c)
 		if kind == "harness" {
